@@ -51,7 +51,7 @@ def gen_case(rng, tier, flavour=None):
         if persisted and (rng.random() < 0.55 or not cs):
             cs += [IDX, DATA] if rng.random() < 0.7 else [DATA, IDX]
         if malformed and rng.random() < 0.08:
-            cs = cs + [rng.choice([77, cs[0]])]          # unknown channel / duplicate
+            cs = cs + [77]                                 # unknown channel
         if rng.random() < 0.6:
             auths = [rng.choice(AUTHS)]
         else:
@@ -112,19 +112,21 @@ def gen_case(rng, tier, flavour=None):
         any_paused = any(d["paused"] for d in strs.values() if d["open"])
         x = rng.random()
         if closed:
-            # after DB.Close: no stream writes (see the known finding), a few harmless ops
-            if x < 0.3 and live_w:
+            # after DB.Close: writers keep writing (nothing is delivered any more), plus a few
+            # other operations that must fail or be no-ops
+            if x < 0.35 and live_w:
+                write()
+            elif x < 0.45 and live_w:
                 w = rng.choice(live_w)
                 ops.append({"op": "close_writer", "w": w})
                 writers[w]["open"] = False
-            elif x < 0.5:
+            elif x < 0.6:
                 open_streamer()
                 strs[ns]["open"] = False
-            elif x < 0.6:
-                nw_before = nw
+            elif x < 0.7:
                 open_writer()
                 writers[nw]["open"] = False
-            elif x < 0.8 and live_s:
+            elif x < 0.85 and live_s:
                 ops.append({"op": rng.choice(["resub", "close_streamer"]), "s": rng.choice(live_s), "keys": [1]})
             else:
                 break
@@ -166,7 +168,7 @@ def gen_case(rng, tier, flavour=None):
         if will_close_db and not closed and len(ops) >= n - rng.randrange(1, 5):
             ops.append({"op": "close_db"})
             closed = True
-            n += rng.randrange(0, 4)
+            n += rng.randrange(0, 6)
     return {"cfg": cfg, "ops": ops}
 
 
